@@ -55,3 +55,192 @@ Theorem c09_reissue : forall c s sent, Accept c -> Inv c s -> proto c = Tcp ->
     max_received_ttl s' = max_received_ttl s /\ target_ttl s' = target_ttl s /\ received_time s' = received_time s /\
     Inv c s'.
 Proof. exact reissue_probe_spec. Qed.
+
+(* ====================================================================================================
+   Whole-run statements (Proofs/RunSemantics.v).  Vocabulary, all of it defined there without reference to
+   the loop: [injected c i e] - the environment of iteration i hands error e to the loop (fatal receive outcome,
+   fatal send outcome, address-in-use where there is no re-issue loop; the only error the loop makes up itself is the
+   TCP capacity error); [no_fatal c i] / [benign i] - iteration i injects nothing fatal (responses arbitrary or
+   withheld; transient send failures allowed; address-in-use allowed for TCP / not at all);
+   [count_expired c t0 is] - a lower bound, computed from the clock readings alone, of the number of rounds whose
+   maximum duration has run out; [segs [] ev] - the event trace cut into (sends of the round, round published after
+   them); [round_semantics c k S r] - what round r, number k, must say about the sends S.
+   ==================================================================================================== *)
+From TV Require Import Proofs.RoundHistory Proofs.RunSemantics.
+
+(* With a round limit n: if the environment injects nothing fatal and lets n rounds expire, the run publishes exactly
+   n rounds, numbered 0..n-1 in order, and returns success - whatever responses the network returns or withholds,
+   whichever sends fail transiently.  (With TCP address-in-use outcomes the only other possible end is the capacity
+   error of C07.) *)
+Theorem c09_exactly_n_rounds : forall c t0 is n, Accept c -> max_rounds c = Some n -> Forall (no_fatal c) is ->
+  n <= Z.of_nat (count_expired c t0 is) ->
+  let '(ev, o, sf) := run c t0 is in
+  (o = Finished /\ Z.of_nat (length (pubs ev)) = n /\
+   forall j r, nth_error (pubs ev) j = Some r -> round_probes_ok (Z.of_nat j) r) \/
+  (proto c = Tcp /\ o = Failed_with EInsufficientCapacity).
+Proof. exact run_exactly_n. Qed.
+
+Theorem c09_exactly_n_rounds_benign : forall c t0 is n, Accept c -> max_rounds c = Some n -> Forall benign is ->
+  n <= Z.of_nat (count_expired c t0 is) ->
+  let '(ev, o, sf) := run c t0 is in
+  o = Finished /\ Z.of_nat (length (pubs ev)) = n /\
+  forall j r, nth_error (pubs ev) j = Some r -> round_probes_ok (Z.of_nat j) r.
+Proof. exact run_exactly_n_benign. Qed.
+
+(* success is final: a finished run stays finished with the same events whatever the environment offers afterwards,
+   and its final state is at the round limit *)
+Theorem c09_finished_is_final : forall c t0 is more ev sf, run c t0 is = (ev, Finished, sf) ->
+  run c t0 (is ++ more) = (ev, Finished, sf) /\ finished sf (max_rounds c) = true.
+Proof. exact run_finished_final. Qed.
+
+(* An iteration that ends with an error ends the run: the result is exactly that error, the events of the run end with
+   the sends of that iteration (nothing is published in it), the rest of the environment [post] is never consulted,
+   and the error was injected by the environment of that iteration. *)
+Theorem c09_error_ends_run : forall c t0 pre i post ev0 s0 s' ev1 e, Accept c ->
+  run c t0 pre = (ev0, Running, s0) -> step c s0 i = Ok (s', ev1, Some e) ->
+  run c t0 (pre ++ i :: post) = (ev0 ++ ev1, Failed_with e, s') /\ pubs ev1 = [] /\ injected c i e.
+Proof. exact run_error_ends_full. Qed.
+
+(* Every failed run is of that form: no error appears that the environment did not inject. *)
+Theorem c09_failed_run : forall c t0 is ev e sf, Accept c -> run c t0 is = (ev, Failed_with e, sf) ->
+  exists pre i post ev0 s0 ev1, is = pre ++ i :: post /\ run c t0 pre = (ev0, Running, s0) /\
+    ev = ev0 ++ ev1 /\ pubs ev1 = [] /\ injected c i e /\ step c s0 i = Ok (sf, ev1, Some e).
+Proof. exact run_failed_injected. Qed.
+
+Theorem c09_no_fatal_no_error : forall c t0 is ev e sf, Accept c -> Forall (no_fatal c) is ->
+  run c t0 is = (ev, Failed_with e, sf) -> e = EInsufficientCapacity /\ proto c = Tcp.
+Proof. exact run_no_fatal_error. Qed.
+
+Theorem c09_benign_never_fails : forall c t0 is, Accept c -> Forall benign is ->
+  let '(ev, o, sf) := run c t0 is in forall e, o <> Failed_with e.
+Proof. exact run_benign_never_fails. Qed.
+
+(* Fatal receive outcome x in a run that has not ended: the run ends in this iteration, after its sends, in the state
+   the send phase left; the error is x unless the send phase of the same iteration already failed with e1. *)
+Theorem c09_fatal_recv_ends_run : forall c t0 pre i post ev0 s0 x, Accept c ->
+  run c t0 pre = (ev0, Running, s0) -> i_recv i = FatalR x ->
+  exists s1 ev1 e, send_request c s0 i = Ok (s1, ev1, e) /\ pubs ev1 = [] /\
+    run c t0 (pre ++ i :: post) = (ev0 ++ ev1, Failed_with (match e with Some e1 => e1 | None => x end), s1).
+Proof. exact run_fatal_recv. Qed.
+
+(* Fatal outcome x of the first send of an iteration that does send: the run ends with exactly x, its last event is
+   that send (sequence and ttl of the state), nothing follows. *)
+Theorem c09_fatal_send_ends_run : forall c t0 pre i post ev0 s0 x rest, Accept c ->
+  run c t0 pre = (ev0, Running, s0) -> i_sends i = FatalS x :: rest ->
+  can_send c s0 = Ok true -> sequence s0 - round_sequence s0 < 512 ->
+  exists p s1, next_probe c s0 (hd_clock (i_clock i) (round_start s0)) = Ok (p, s1) /\
+    p_sequence p = sequence s0 /\ p_ttl p = ttl s0 /\
+    run c t0 (pre ++ i :: post) = (ev0 ++ [ESend p (FatalS x)], Failed_with x, s1).
+Proof. exact run_fatal_send. Qed.
+
+(* Transient failure of the send of an iteration, as a statement about send_request (any protocol): exactly the slot of
+   that probe becomes Failed - the buffer differs from the one before the iteration in that slot only -, the sequence
+   and the ttl move on by one as after a successful send, and the iteration has no error (it goes on to receive). *)
+Theorem c09_transient_continues : forall c s i rest, Accept c -> Inv c s -> can_send c s = Ok true ->
+  sequence s - round_sequence s < 512 -> i_sends i = ProbeFailedO :: rest ->
+  exists d p s2, probe_data c s = Ok d /\ p = mk_probe s d (ttl s) (hd_clock (i_clock i) (round_start s)) /\
+    send_request c s i = Ok (s2, [ESend p ProbeFailedO], None) /\ Inv c s2 /\
+    buffer s2 = upd (Z.to_nat (sequence s - round_sequence s)) (Failed p) (buffer s) /\
+    sequence s2 = sequence s + 1 /\ ttl s2 = ttl s + 1 /\ same_book s s2.
+Proof. exact transient_send. Qed.
+
+(* What the published rounds say, on the event trace of the run itself.  For the j-th published round r and the sends
+   S handed to the network since the previous publication: r has one slot per send; every probe of S carries round
+   number j; no fatal send outcome precedes a publication; a transient failure is reported as Failed with exactly
+   that probe; address-in-use occurs only for TCP, is reported as Skipped, and is followed by a send under the next
+   sequence number with the same ttl and round; any other send is reported as Awaited or Complete with exactly that
+   probe and the next send (if any) has the next sequence number and the next ttl. *)
+Theorem c09_published_round_semantics : forall c t0 is, Accept c ->
+  let '(ev, o, sf) := run c t0 is in
+  map snd (segs [] ev) = pubs ev /\
+  forall j Sj r, nth_error (segs [] ev) j = Some (Sj, r) -> round_semantics c (Z.of_nat j) Sj r.
+Proof. exact run_round_semantics. Qed.
+
+(* conversely: a slot is Skipped only for an address-in-use send, Failed p only for a transient failure of p *)
+Theorem c09_skipped_failed_only_then : forall c k S r, round_semantics c k S r ->
+  forall i, (nth_error (rr_probes r) i = Some Skipped -> exists p, nth_error S i = Some (p, AddressInUseO)) /\
+            (forall p, nth_error (rr_probes r) i = Some (Failed p) -> nth_error S i = Some (p, ProbeFailedO)).
+Proof. exact round_semantics_converse. Qed.
+
+(* ---- non-vacuity ---- *)
+Definition c09_it (sends : list send_outcome) (rc : recv_outcome) (u a : Z) : iter_in :=
+  {| i_clock := [u]; i_sends := sends; i_recv := rc; i_update := u; i_advance := a |}.
+
+Definition c09_cfg_icmp : scfg :=
+  {| target_addr := [1;2;3;4]; proto := Icmp; trace_identifier := 7; max_rounds := Some 3;
+     first_ttl := 1; max_ttl := 4; grace_duration := 100; max_inflight := 24;
+     initial_sequence := 33434; multipath := Classic; port_direction := PdNone;
+     min_round_duration := 1000; max_round_duration := 1000 |}.
+
+Definition c09_env_icmp : list iter_in :=
+  [c09_it [Sent] Timeout 10 10; c09_it [ProbeFailedO] Timeout 20 20; c09_it [] Timeout 1500 1501;
+   c09_it [Sent] Timeout 1600 1600; c09_it [] Timeout 2700 2701; c09_it [] Timeout 4000 4000; c09_it [] Timeout 9000 9000].
+
+(* the hypotheses of c09_exactly_n_rounds_benign are satisfiable, and the run is what the theorem says *)
+Example c09_termination_example :
+  Accept c09_cfg_icmp /\ Forall benign c09_env_icmp /\ 3 <= Z.of_nat (count_expired c09_cfg_icmp 0 c09_env_icmp) /\
+  let '(ev, o, sf) := run c09_cfg_icmp 0 c09_env_icmp in
+  o = Finished /\ length (pubs ev) = 3%nat /\
+  map (fun x => map (fun po => (p_sequence (fst po), p_ttl (fst po), snd po)) (fst x)) (segs [] ev) =
+    [[(33434, 1, Sent); (33435, 2, ProbeFailedO); (33436, 3, Sent)]; [(33437, 1, Sent); (33438, 2, Sent)]; [(33439, 1, Sent)]].
+Proof.
+  split; [split; [reflexivity|unfold cfg_wf, u8, u16; cbn; lia]|].
+  split.
+  { assert (Hb : forall s u a, Forall (fun o => o = Sent \/ o = ProbeFailedO) s -> benign (c09_it s Timeout u a))
+      by (intros s u a H; split; [intros e; discriminate|exact H]).
+    unfold c09_env_icmp. repeat (constructor; [apply Hb; repeat (constructor; [auto|])|]); constructor. }
+  split; [vm_compute; discriminate|]. vm_compute. split; [reflexivity|]. split; reflexivity.
+Qed.
+
+Definition c09_cfg_tcp : scfg :=
+  {| target_addr := [1;2;3;4]; proto := Tcp; trace_identifier := 0; max_rounds := Some 2;
+     first_ttl := 1; max_ttl := 4; grace_duration := 100; max_inflight := 24;
+     initial_sequence := 33434; multipath := Classic; port_direction := FixedDest 80;
+     min_round_duration := 1000; max_round_duration := 1000 |}.
+
+Definition c09_env_tcp : list iter_in :=
+  [c09_it [AddressInUseO; AddressInUseO; Sent] Timeout 10 10; c09_it [ProbeFailedO] Timeout 20 20;
+   c09_it [AddressInUseO; ProbeFailedO] Timeout 1500 1501; c09_it [Sent] Timeout 1600 1600;
+   c09_it [] (FatalR (EIo 5)) 2600 2601; c09_it [] Timeout 2700 2700].
+
+Definition c09_status_tag (st : pstatus) : Z :=
+  match st with NotSent => 0 | Skipped => 1 | Failed _ => 2 | Awaited _ => 3 | Complete _ => 4 end.
+
+(* a TCP run with re-issues and transient failures in the published round, ended by a fatal receive outcome:
+   Skipped / Failed exactly where the sends say so, the re-issues keep the ttl, the error is the injected one,
+   and the iteration after the failing one is never run *)
+Example c09_tcp_example :
+  Accept c09_cfg_tcp /\
+  let '(ev, o, sf) := run c09_cfg_tcp 0 c09_env_tcp in
+  o = Failed_with (EIo 5) /\
+  map (fun x => (map (fun po => (p_sequence (fst po), p_ttl (fst po), snd po)) (fst x),
+                 map c09_status_tag (rr_probes (snd x)))) (segs [] ev) =
+    [([(33434, 1, AddressInUseO); (33435, 1, AddressInUseO); (33436, 1, Sent); (33437, 2, ProbeFailedO);
+       (33438, 3, AddressInUseO); (33439, 3, ProbeFailedO)], [1; 1; 3; 2; 1; 2])].
+Proof.
+  split; [split; [reflexivity|unfold cfg_wf; cbn; unfold u8, u16; lia]|]. vm_compute. split; reflexivity.
+Qed.
+
+(* round_semantics is not vacuous: a round that reports a transiently failed send as still awaited, or an abandoned
+   (address-in-use) slot without a re-issue after it, is rejected *)
+Definition c09_probe (q t : Z) : probe :=
+  {| p_sequence := q; p_identifier := 0; p_src_port := 0; p_dest_port := 80; p_ttl := t; p_round := 0; p_sent := 0; p_flags := 0 |}.
+Definition c09_round (l : list pstatus) : round_rec := {| rr_probes := l; rr_largest_ttl := 0; rr_reason := RoundTimeLimitExceeded |}.
+
+Example c09_round_semantics_rejects :
+  round_semantics c09_cfg_tcp 0 [(c09_probe 5 1, AddressInUseO); (c09_probe 6 1, ProbeFailedO)]
+                  (c09_round [Skipped; Failed (c09_probe 6 1)]) /\
+  ~ round_semantics c09_cfg_tcp 0 [(c09_probe 5 1, ProbeFailedO)] (c09_round [Awaited (c09_probe 5 1)]) /\
+  ~ round_semantics c09_cfg_tcp 0 [(c09_probe 5 1, AddressInUseO)] (c09_round [Skipped]) /\
+  ~ round_semantics c09_cfg_tcp 0 [(c09_probe 5 1, AddressInUseO); (c09_probe 6 2, Sent)]
+                    (c09_round [Skipped; Awaited (c09_probe 6 2)]).
+Proof.
+  split; [|split; [|split]].
+  - split; [reflexivity|]. intros [|[|i]] p o Hi; cbn in Hi; try (destruct i; discriminate); inversion Hi; subst; cbn.
+    + split; [reflexivity|]. split; [discriminate|]. split; [|congruence].
+      split; [reflexivity|]. split; [reflexivity|]. eexists _, _. split; [reflexivity|]. cbn. repeat split; lia.
+    + split; [reflexivity|]. split; [discriminate|]. split; [reflexivity|]. intros _ p' o' H; discriminate.
+  - intros [_ H]. destruct (H 0%nat _ _ eq_refl) as (_ & _ & X & _). cbn in X. discriminate.
+  - intros [_ H]. destruct (H 0%nat _ _ eq_refl) as (_ & _ & (_ & _ & p' & o' & X & _) & _). cbn in X. discriminate.
+  - intros [_ H]. destruct (H 0%nat _ _ eq_refl) as (_ & _ & (_ & _ & p' & o' & X & _ & Y & _) & _). cbn in X. inversion X; subst. cbn in Y. lia.
+Qed.
